@@ -124,6 +124,9 @@ func choose(c *harness.Ctx, K, R, W int, mapOrder bool) *pageSpec {
 			if K*R == 1 {
 				continue // an empty page is a separate, fixed case
 			}
+			if K*R > 8 && !((col == 0 || col == K-1) && (row == 0 || row == R-1)) {
+				continue // big grids: only the four corner cells may be absent (keeps the thorough tier affordable)
+			}
 			if c.Bool(fmt.Sprintf("absent%d.%d", col, row)) {
 				p.absent[[2]int{col, row}] = true
 			}
@@ -434,7 +437,11 @@ func (p *pageSpec) build() {
 // describe is a compact human-readable dump for failure details.
 func (p *pageSpec) describe() string {
 	var b strings.Builder
-	for _, f := range p.frags {
+	for i, f := range p.frags {
+		if i >= 12 && !verbose {
+			fmt.Fprintf(&b, "… (%d fragments)", len(p.frags))
+			break
+		}
 		fmt.Fprintf(&b, "%s@%.1f,%.1f ", f.text, f.x*p.scaleF, f.y*p.scaleF)
 	}
 	return b.String()
